@@ -411,6 +411,7 @@ package spec
 //@   assigns  nothing
 //@   defines  result == normBase(in)
 //@   ensures  canonical @@ cwdAvailable() ==> canonicalURL(result)
+//@   ensures  non-empty @@ urlOK(result) && urlScheme(result) != "" && result != ""
 //@   ensures  file-no-query @@ cwdAvailable() && (!urlOK(in) || urlScheme(in) == "" || (urlScheme(in) == "file" && !hasPrefix(pathClean(urlPath(in)), "/"))) ==> urlScheme(result) == "file" && urlQuery(result) == ""
 //@   ensures  keeps-scheme @@ urlOK(in) && urlScheme(in) != "" && urlScheme(in) != "file" ==> urlScheme(result) == urlScheme(in) && urlHost(result) == urlHost(in) && urlQuery(result) == urlQuery(in)
 //@   ensures  idempotent @@ canonicalURL(in) && in == urlStr(urlScheme(in), urlHost(in), urlPath(in), urlQuery(in), "") ==> result == in
@@ -562,6 +563,7 @@ package spec
 //@   pure
 //@   ensures result1 == cacheDom[uri]
 //@   ensures result1 ==> result0 == cacheDoc[uri]
+//@   ensures !result1 ==> result0 == nil
 
 //@ iface ResolutionCache.Set
 //@   params cache, uri, data
@@ -697,3 +699,85 @@ package spec
 //@   ensures  [C18] loads-only-missing @@ forall u string :: calls(old(r.context.loadDoc), u) >= old(calls(r.context.loadDoc, u)) && (old(cacheDom[u]) ==> calls(old(r.context.loadDoc), u) == old(calls(r.context.loadDoc, u)))
 //@ define reflect_is_ptr(target interface{}) bool = reflect_kind_of(target) == 22
 //@ specfn reflect_kind_of(interface{}) int
+
+// two canonical URLs name the same document (fragment ignored, record normalised as jsonreference does)
+//@ define sameDoc(x string, b string) bool = urlScheme(x) == urlScheme(b) && normHost(urlScheme(x), urlHost(x)) == normHost(urlScheme(b), urlHost(b))
+//@    && dedupSlashes(urlPath(x)) == dedupSlashes(urlPath(b)) && urlQuery(x) == urlQuery(b)
+//@ define sameRun(r2 *schemaLoader, r *schemaLoader) bool = wfResolver(r2) && r2.cache == r.cache && r2.context == r.context
+
+//@ func (*schemaLoader).transitiveResolver
+//@   property C02, C04
+//@   requires wfResolver(r) && urlOK(basePath) && urlScheme(basePath) != ""
+//@   assigns  r.options.RelativeBase
+//@   ensures  same-run @@ sameRun(result, r)
+//@   ensures  [C02] local-keeps @@ old(refLocal(ref)) ==> result == r
+//@   ensures  [C02] keeps-only-same-document @@ result == r && !old(refLocal(ref)) ==> sameDoc(normURI(old(refString(ref)), basePath), basePath)
+//@   ensures  [C02] switches-to-target @@ result != r ==> freshObj(result) && result.options == r.options
+//@               && result.options.RelativeBase == urlStr(urlScheme(normURI(old(refString(ref)), basePath)), normHost(urlScheme(normURI(old(refString(ref)), basePath)), urlHost(normURI(old(refString(ref)), basePath))),
+//@                     dedupSlashes(urlPath(normURI(old(refString(ref)), basePath))), urlQuery(normURI(old(refString(ref)), basePath)), "")
+//@   ensures  [C02] new-root-from-cache @@ result != r ==> (result.root != nil ==> old(cacheDom)[result.options.RelativeBase] && result.root == old(cacheDoc)[result.options.RelativeBase])
+
+//@ func (*schemaLoader).updateBasePath
+//@   property C02
+//@   requires r != nil && transitive != nil
+//@   assigns  nothing
+//@   ensures  same @@ transitive == r ==> result == basePath
+//@   ensures  switched @@ transitive != r && transitive.options != nil && transitive.options.RelativeBase != "" ==> result == normBase(transitive.options.RelativeBase)
+//@   ensures  switched-empty @@ transitive != r && (transitive.options == nil || transitive.options.RelativeBase == "") ==> result == basePath
+
+// ---- construction of loaders
+
+//@ axiom PathLoader != nil
+
+// the package-level cache is initialised by onceCache.Do(initResolutionCache) before its only reader uses it
+//@ axiom resCache != nil && resCache.store != nil
+
+//@ func (*simpleCache).ShallowClone
+//@   property C16, C17
+//@   requires s != nil
+//@   assigns  nothing
+//@   ensures  result != nil
+
+//@ func cacheOrDefault
+//@   property C16, C04
+//@   assigns  nothing
+//@   ensures  result != nil
+//@   ensures  cache != nil ==> result == cache
+
+//@ func optionsOrDefault
+//@   property C10, C16, C11
+//@   assigns  nothing
+//@   ensures  fresh-clone @@ freshObj(result)
+//@   ensures  [C11] normalised-once @@ opts != nil && opts.RelativeBase != "" ==> result.RelativeBase == normBase(opts.RelativeBase)
+//@   ensures  empty-kept @@ opts == nil || opts.RelativeBase == "" ==> result.RelativeBase == ""
+//@   ensures  copies @@ opts != nil ==> result.SkipSchemas == opts.SkipSchemas && result.ContinueOnError == opts.ContinueOnError && result.PathLoader == opts.PathLoader && result.AbsoluteCircularRef == opts.AbsoluteCircularRef
+//@   ensures  defaults @@ opts == nil ==> !result.SkipSchemas && !result.ContinueOnError && result.PathLoader == nil && !result.AbsoluteCircularRef
+
+//@ func baseForRoot
+//@   property C10, C18
+//@   requires cache != nil
+//@   assigns  ghost(cacheDom, cacheDoc)
+//@   ensures  result == normBase(".root") && result != ""
+//@   ensures  [C10] root-registered @@ root != nil ==> cacheDom[result] && cacheDoc[result] == root
+//@   ensures  [C10] preloaded-root-kept @@ root == nil && old(cacheDom[normBase(".root")]) && old(cacheDoc[normBase(".root")]) != nil ==> cacheDom == old(cacheDom) && cacheDoc == old(cacheDoc)
+//@   ensures  [C10] never-nil-root @@ cacheDom[result] && cacheDoc[result] != nil
+//@   ensures  [C18] others-kept @@ forall u string :: u != result && old(cacheDom[u]) ==> cacheDom[u] && cacheDoc[u] == old(cacheDoc[u])
+
+//@ func newResolverContext
+//@   property C16, C04
+//@   assigns  nothing
+//@   ensures  freshObj(result) && result.circulars != nil && result.loadDoc != nil && len(result.circulars) == 0
+//@   ensures  options != nil && options.RelativeBase != "" ==> result.basePath == normBase(options.RelativeBase)
+//@   ensures  forall k string :: !has(result.circulars, k)
+
+//@ func defaultSchemaLoader
+//@   property C10, C16, C04
+//@   requires context == nil || (context.circulars != nil && context.loadDoc != nil)
+//@   assigns  expandOptions.RelativeBase, ghost(cacheDom, cacheDoc)
+//@   ensures  wf @@ freshObj(result) && wfResolver(result) && result.root == root
+//@   ensures  options-kept @@ expandOptions != nil ==> result.options == expandOptions
+//@   ensures  cache-kept @@ cache != nil ==> result.cache == cache
+//@   ensures  context-kept @@ context != nil ==> result.context == context
+//@   ensures  base-kept @@ expandOptions != nil && old(expandOptions.RelativeBase) != "" ==> expandOptions.RelativeBase == old(expandOptions.RelativeBase) && cacheDom == old(cacheDom) && cacheDoc == old(cacheDoc)
+//@   ensures  base-defaulted @@ result.options.RelativeBase != ""
+//@   ensures  [C18] cache-monotone @@ forall u string :: u != normBase(".root") && old(cacheDom[u]) ==> cacheDom[u] && cacheDoc[u] == old(cacheDoc[u])
